@@ -25,6 +25,10 @@ def is_view(cs):
     from .absint import SLICE_VIEW_IMPLS
     if cs.key in SLICE_VIEW_IMPLS and cs.ret is not None and cs.ret[0] == "P":
         return True  # the crate's AsRef / AsMut / Borrow / BorrowMut<[T]>: modelled as the full view (their bodies: C02.D / C13.B)
+    if cs.key in ("GenericArray<$0,$1>::slice_from_chunks", "GenericArray<$0,$1>::slice_from_chunks_mut") and cs.ret is not None and cs.ret[0] == "P":
+        return True  # the flattening views: modelled as (same address, len * N elements), verified against their bodies by check_views
+    if cs.fn in ("core::slice::from_ref", "core::slice::from_mut") and cs.ret is not None and cs.ret[0] == "P":
+        return True  # the one-element slice over the referent
     if cs.key == "GenericArray<$0,$1>::len":
         return True  # modelled constant N (spec checked by rules.check_views)
     if cs.fn.startswith("core::ptr::const_ptr::<impl *const T>::") or cs.fn.startswith("core::ptr::mut_ptr::<impl *mut T>::"):
@@ -114,6 +118,10 @@ def check_views(ctx, cfg, rule="C02.V"):
         n = a.tenv.length({"k": "param", "n": b["generics"][1]["n"]})
         good = bool(a.returns) and all(r["val"] == ("I", n) for r in a.returns)
         ctx.ob(rule, "GenericArray<$0,$1>::len", good, "returns %s; expected N (the model used at call sites)" % ", ".join(vstr(r["val"]) for r in a.returns), at=b["at"], cfg=cfg)
+    # a view may be built on the crate's own flattening functions (as_slice = slice_from_chunks(from_ref(self))): their call-site model
+    # (same address, len * N elements) is verified against their bodies here, where the views rely on it
+    from .models import verify_models as _vm
+    _vm(ctx, cfg, ["GenericArray<$0,$1>::slice_from_chunks", "GenericArray<$0,$1>::slice_from_chunks_mut"])
     for key in (K_AS_SLICE, K_AS_MUT_SLICE, K_DEREF, K_DEREF_MUT):
         b = ctx.body(cfg, key, rule)
         if b is None:
